@@ -43,7 +43,7 @@ def run(chk: Check):
     traces.append({"hdr": {"kind": "tau2", "d": 3, "order": 1, "nontrivial": True, "int_current": True},
                    "ev": G.tau2_events(rng, 3, 1, nkeys=2 if chk.quick else 6, int_current=True)})
     for kind in ("prior_only", "bernoulli_direct", "finite_via_named_var", "bernoulli_two_children", "bernoulli_tempered",
-                 "finite_int_current", "finite_start_outside", "finite_zero_prior"):
+                 "finite_int_current", "finite_start_outside", "finite_zero_prior", "residual_weak_dist"):
         traces.append({"hdr": {"kind": kind, "nontrivial": kind != "prior_only"},
                        "ev": G.discrete_events(rng, kind, nkeys=64 if chk.quick else 256)})
     chk.tv("Trace_Gibbs.tla", traces, tag="gibbs", nontrivial=lambda t: t["hdr"]["nontrivial"],
